@@ -58,6 +58,8 @@ def program_text(stmts):
 
 
 # ------------------------------------------------------------------ random structured programs
+KEYWORDISH = ['returnBook', 'ifx', 'forEach', 'whileTrue', 'jumpTo', 'jumpifNot', 'includeIt', 'breakUp', 'continueOn', 'elseWhere', 'elifx',
+              'endifx', 'endforx', 'functionOf', 'asyncTask', 'endfunctionx']
 VARS = ['va', 'vb', 'vc', 'vd']
 GLOBALS = ['g0', 'g1', 'g2']          # initial globals supplied by the host (any value type)
 
@@ -130,6 +132,9 @@ class Gen:
                 return ['if', [[self.expr(1), [['continue']]]], None]
             if c2 < 0.93:
                 return ['return', self.expr(1) if r.random() < 0.8 else None] if r.random() < 0.5 else self.log()
+            if self.funcs and r.random() < 0.6:          # a bare call statement
+                name, nargs, _ = r.choice(self.funcs)
+                return ['expr', f'{name}(' + ', '.join(self.expr(1) for _ in range(nargs)) + ')']
             return ['expr', f'({self.expr(2)})']     # parenthesised: `x == 1` as a statement would read as an assignment
         if c < 0.55:
             nb = r.choice([1, 1, 2, 3])
@@ -176,7 +181,9 @@ def gen_program(r, max_depth=4, nfuncs=None, allow_while_continue=False):
     funcs = []
     for i in range(nfuncs):
         nargs = r.randint(0, 3)
-        funcs.append((f'fn{i}', nargs, nargs > 0 and r.random() < 0.25))
+        # (some names BEGIN with a statement keyword: `returnBook(x)` is a call statement, not `return Book(x)`)
+        name = f'fn{i}' if i == 0 or r.random() < 0.5 else r.choice(KEYWORDISH) + str(i)
+        funcs.append((name, nargs, nargs > 0 and r.random() < 0.25))
     g = Gen(r, funcs, max_depth, allow_while_continue)
     prog = []
     # functions may appear between global statements (labels share one counter across the script)
